@@ -976,7 +976,9 @@ def filter_copy(P, rep, rule="FILTER"):
         loop = astq.enclosing(F, pts[0], ("ForStmt",))
         okl, iv, bound = layout.forward_loop(P, F, loop) if loop else (False, None, None)
         nm = P.d(iv).get("n") if iv else "?"
-        if not (okl and sc(bound).get("v") == 3 and v in ("input_mesh.points()[((src_vid*3)+%s)]" % nm,)):
+        in_mesh_name = [P.d(pk).get("n") for pk in F.params if "Vtu11UnstructuredMesh" in (P.d(pk).get("t") or "") and "const" in (P.d(pk).get("t") or "")]
+        want_v = "%s.points()[((src_vid*3)+%s)]" % (in_mesh_name[0] if in_mesh_name else "input_mesh", nm)
+        if not (okl and sc(bound).get("v") == 3 and v in (want_v,)):
             problems.append("output point coordinates are %s over %s" % (v, R(bound) if bound else "?"))
     # (c) connectivity gets dst_vid, which is vertex_index_map[src_vid]
     conn = [n for n in F.walk() if astq.member_call(P, n, "push_back") and "output_mesh.connectivity()" in R(astq.member_call(P, n, "push_back")[0])]
